@@ -95,12 +95,20 @@ def block (junk : Nat → Nat) (s : Array Nat) (stride i : Nat) (data : Mat Nat 
       | some (mul, p) => d.set (i + mul) c (readPos 0 loaded p)
       | none => d) d) data
 
-/-- the block loop `while i + 32 <= src_stride { …; i += 32 }` -/
+/-- the second conjunct of the block loop condition, `g * src_stride + i + 32 <= length` (the furthest
+    load of the block stays inside the symbol buffer); absent (`none`) before the C06 repair -/
+def srcGuardOk (length stride i : Nat) : Bool :=
+  match Gen.Avx2Stripe.srcGuard with
+  | some g => decide (g * stride + i + 32 ≤ length)
+  | none => true
+
+/-- the block loop `while i + 32 <= src_stride && 0x1f * src_stride + i + 32 <= length { …; i += 32 }` -/
 def blockLoop (junk : Nat → Nat) (s : Array Nat) (stride : Nat) :
     (fuel : Nat) → Nat → Mat Nat 32 → Nat × Mat Nat 32
   | 0, i, d => (i, d)
   | fuel + 1, i, d =>
-    if (if Gen.Avx2Stripe.loopStrict then i + 32 < stride else i + 32 ≤ stride) then
+    if (if Gen.Avx2Stripe.loopStrict then i + 32 < stride else i + 32 ≤ stride) ∧
+        srcGuardOk s.size stride i = true then
       blockLoop junk s stride fuel (i + Gen.Avx2Stripe.srcInc) (block junk s stride i d)
     else (i, d)
 
